@@ -96,7 +96,7 @@ fn long_log(ctx: &ShardCtx, nested: u32) -> BoxedStrategy<CrashCase> {
 fn across_checkpoint(ctx: &ShardCtx, nested: u32) -> BoxedStrategy<CrashCase> {
     let excluded: Vec<String> = ctx.excludes.keys().cloned().collect();
     let stride = ctx.tier.pick(3u32, 1u32);
-    (prop::collection::vec(0u8..12, 1..4), prop::collection::vec(0u8..12, 1..3), prop::collection::vec(0u8..12, 1..4), prop::bool::weighted(0.75), prop::bool::weighted(0.4), prop::bool::weighted(0.3), prop::collection::vec(0u8..12, 0..4))
+    (prop::collection::vec(0u8..12, 1..4), prop::collection::vec(0u8..12, 1..3), prop::collection::vec(0u8..12, 0..4), prop::bool::weighted(0.75), prop::bool::weighted(0.4), prop::bool::weighted(0.3), prop::collection::vec((0u8..6, 0u8..12), 0..4))
         .prop_map(move |(pre, in1, in2, commit, other_commit_between, second_flush, post)| {
             let row = |v: u8| vec![AVal::Pool(v), AVal::Pool(v / 2), AVal::Pool(v), AVal::Pool(v), AVal::Pool(v)];
             let ins = |v: u8| AStmt::Insert { t: 0, rows: vec![row(v)], partial: false };
@@ -119,8 +119,16 @@ fn across_checkpoint(ctx: &ShardCtx, nested: u32) -> BoxedStrategy<CrashCase> {
                 steps.push(Step::Flush);
             }
             steps.push(if commit { Step::Commit(0) } else { Step::Rollback(0) });
-            for v in post {
-                steps.push(Step::Auto(ins(v)));
+            // afterwards the rows the session wrote (checkpointed while it was open) are written again by others:
+            // recovery has to redo / undo work on rows whose inserter it only knows from a Commit record
+            for (kind, v) in post {
+                steps.push(Step::Auto(match kind {
+                    0 | 1 => ins(v),
+                    2 => AStmt::Delete { t: 0, pred: APred::True },
+                    3 => AStmt::Delete { t: 0, pred: APred::Cmp { col: 0, op: 0, val: AVal::Pool(v) } },
+                    4 => AStmt::Update { t: 0, col: 0, val: AVal::Pool(v), add: None, pred: APred::True },
+                    _ => AStmt::Update { t: 0, col: u16::MAX, val: AVal::Pool(v), add: None, pred: APred::Cmp { col: 0, op: 0, val: AVal::Pool(v) } },
+                }));
             }
             CrashCase { cfg: Cfg::default(), steps, excluded: excluded.clone(), stride, nested, flush_with_open_writer: true }
         })
